@@ -112,7 +112,7 @@ def run(tier, seed, only=None):
         elif ev["event"] == "DeclNames":
             only_none = sorted(set(ev["none"]) - set(ev["zod"]))
             only_zod = sorted(set(ev["zod"]) - set(ev["none"]))
-            verdicts.reject("declnames only_none=%s only_zod=%s" % (",".join(only_none), ",".join(only_zod)), "differs",
+            verdicts.reject("declnames project=%s only_none=%s only_zod=%s" % (ev["case"], ",".join(only_none), ",".join(only_zod)), "differs",
                             "the two modes declare different type names for the same project: only plain: %s; only zod: %s" % (only_none, only_zod), ev)
         else:
             verdicts.reject("keys decl=%s" % ev["decl"], "none=%s zod=%s" % (ev["none"], ev["zod"]),
@@ -218,16 +218,26 @@ def enum_events(d):
     return evs
 
 
+FEATURE_MAPPINGS = {"Address": "string", "JobStats": "number", "Status": "string", "PathBuf": "string"}
+
+
 def feature_events(d):
-    root = os.path.join(d, "feat")
-    rustgen.write_project(root, {"src/lib.rs": FEATURE_SRC})
+    # ... once as it is and once under a mapping table that maps project types of the feature project: one used by
+    # commands and nested in another struct (Address), an enum (Status), one reachable ONLY through an event payload
+    # (JobStats) - the set of declared names must be the same in both modes under the table too
+    return _feature_events(d, None) + _feature_events(d, FEATURE_MAPPINGS)
+
+
+def _feature_events(d, mappings):
+    tag = "feature" if mappings is None else "feature-mapped"
     bs = {}
     for mode in ("none", "zod"):
-        res = runner.generate(root, out="out_" + mode, mode=mode)
-        if res.rc != 0:
+        b, res, texts = PC.run_project(d, "%s-%s" % (tag, mode), {"src/lib.rs": FEATURE_SRC}, mode=mode,
+                                       extra_cfg=None if mappings is None else {"type_mappings": mappings})
+        if res.rc != 0 or b is None:
             raise C.ToolError("feature project failed to generate: " + res.err[-500:])
-        bs[mode] = observe.Bindings(os.path.join(root, "out_" + mode))
-    evs = [{"event": "DeclNames", "case": "feature", "none": declared_type_names(bs["none"]), "zod": declared_type_names(bs["zod"])}]
+        bs[mode] = b
+    evs = [{"event": "DeclNames", "case": tag, "none": declared_type_names(bs["none"]), "zod": declared_type_names(bs["zod"])}]
     names = sorted(set(declared_type_names(bs["none"])) & set(declared_type_names(bs["zod"])))
     for n in names:
         a = bs["none"].members_of_type(n)
@@ -244,7 +254,7 @@ def feature_events(d):
                     omit = _zod_omittable(m["zod"])
                 out.append("%s%s" % (k, "?" if omit else ""))
             return sorted(out)
-        evs.append({"event": "Keys", "case": n, "decl": n, "none": keys(a), "zod": keys(b)})
+        evs.append({"event": "Keys", "case": "%s/%s" % (tag, n), "decl": n, "none": keys(a), "zod": keys(b)})
     return evs
 
 
